@@ -664,10 +664,27 @@ Definition deref_hit (rs : list srule) (states : list facts) : bool :=
   existsb (fun r => existsb (fun s => existsb (fun f => match get_nested f s, fget f s with None, None => false | _, _ => true end) states)
                             (strlit_rhs (sr_cond r))) rs.
 
+(** the known finding C01-comparison-operator-in-string-of-arithmetic-condition: an arithmetic / concatenation condition is kept as
+    the text "lhs op rhs" and split again by evaluate_arithmetic_condition with rfind over the comparison operators, string literals
+    included *)
+Fixpoint lit_strs (l : lit) : list str :=
+  match l with LStr s => [s] | LArr ls => (fix go (ls : list lit) : list str := match ls with [] => [] | x :: r => lit_strs x ++ go r end) ls | _ => [] end.
+Fixpoint aexp_strs (e : aexp) : list str :=
+  match e with ALit l => lit_strs l | ABin _ a b => aexp_strs a ++ aexp_strs b | APar a => aexp_strs a | AField _ => [] end.
+Fixpoint test_strs (c : scond) : list str :=
+  match c with
+  | SCmp (AField _) _ _ => []
+  | SCmp l _ r => aexp_strs l ++ aexp_strs r
+  | SAnd a b | SOr a b => test_strs a ++ test_strs b
+  | SNot a => test_strs a
+  end.
+Definition cmp_strlit_hit (rs : list srule) : bool := existsb (fun r => existsb (fun s => negb (nocmp s)) (test_strs (sr_cond r))) rs.
+
 (** monitor: 1 = the observation is what the documented semantics prescribes and the case lies within the
     hypotheses of the run theorem; -2 = the same, but the case is outside those hypotheses (monitored only);
     -1 = the documented semantics leaves this run undefined (outside the property's quantifier);
-    0 = violation; 2 = violation of the known class C01-string-literal-names-a-fact *)
+    0 = violation; 2 = violation of the known class C01-string-literal-names-a-fact; 3 = violation of the known class
+    C01-comparison-operator-in-string-of-arithmetic-condition *)
 Definition ok_sx (c o : sx) : Z :=
   match dec_case c, o with
   | Some (rs, f), L [parsed; log; res; fin] =>
@@ -679,7 +696,7 @@ Definition ok_sx (c o : sx) : Z :=
                | Some (st, k, n) =>
                    if sx_eqb (enc_run (Some (st, k, n))) (L [log; res; fin])
                    then (if forallb rule_okb rs && negb (is_none (run_rules (sem_step true) (sorted_spec rs) f)) then 1 else -2)
-                   else if deref_hit rs (f :: map snd (l_log st)) then 2 else 0
+                   else if deref_hit rs (f :: map snd (l_log st)) then 2 else if cmp_strlit_hit rs then 3 else 0
                end
       | None => 0 end
   | _, _ => 0
